@@ -144,6 +144,11 @@ func (r *rw) block(list []ast.Stmt, depth int) []ast.Stmt {
 				if depth > 0 {
 					depth--
 				}
+				if afterUnlock && depth == 0 {
+					// a preemption point right after an explicit unlock: what the code does next is no longer
+					// protected (a value read under the lock and used after it)
+					out = append(out, r.gate())
+				}
 				continue
 			}
 		case *ast.DeferStmt:
@@ -247,7 +252,7 @@ func (r *rw) nested(s ast.Stmt, depth int) {
 	})
 }
 
-var modeB bool
+var modeB, afterUnlock bool
 
 const simcorePath = "github.com/apache/skywalking-banyandb/pkg/verif/simcore"
 
@@ -257,6 +262,7 @@ func main() {
 	name := flag.String("name", "", "name used in gate sites (repo-relative path)")
 	mode := flag.String("mode", "A", "A: gates outside critical sections; B: cooperative locks, gates everywhere")
 	flag.Bool("locksonly", false, "unused")
+	flag.BoolVar(&afterUnlock, "afterunlock", false, "mode A: also gate right after an explicit Unlock/RUnlock that leaves the critical section")
 	flag.Parse()
 	modeB = *mode == "B"
 	fset := token.NewFileSet()
